@@ -934,6 +934,15 @@ class UniformTime(np.ndarray, TimeInterface):
         if self.ndim != 1:
             e_s = 'slicing only implemented for 1-d TimeArrays'
             return NotImplementedError(e_s)
+        if self.sampling_interval < 0:
+            # A reversed axis: the samples lying in [start, stop) are those
+            # from the first one before stop to the first one before start
+            t0, dt = int(self.t0), int(self.sampling_interval)
+            first = (int(e.stop) - t0) // dt + 1
+            last = (int(e.start) - t0) // dt + 1
+            return slice(min(max(first, 0), len(self)),
+                         min(max(last, 0), len(self)))
+
         t_end = self.t0 + self.duration
 
         def edge(t):
